@@ -135,3 +135,17 @@ impl Drop for TaskPool {
         self.sharing.condvar.notify_all();
     }
 }
+
+/// Verification hook (only with `--cfg tiny_http_verif`): observation of the pool's bookkeeping.
+#[cfg(tiny_http_verif)]
+impl TaskPool {
+    /// (number of queued tasks, idle-worker counter, thread counter)
+    pub fn verif_counters(&self) -> (usize, usize, usize) {
+        let todo = self.sharing.todo.lock().unwrap();
+        (
+            todo.len(),
+            self.sharing.waiting_tasks.load(Ordering::Acquire),
+            self.sharing.active_tasks.load(Ordering::Acquire),
+        )
+    }
+}
